@@ -8,6 +8,6 @@ set -e
 WT=$(readlink -f "$1"); PID=$2; TIER=${3:-quick}
 V=/verif
 mkdir -p "$WT.verif"
-rsync -a --delete --exclude .lock "$V/lean/" "$WT.verif/lean/"
+for i in 1 2 3; do rsync -a --delete --exclude .lock "$V/lean/" "$WT.verif/lean/" && break; rc=$?; [ $rc -eq 24 ] && break; sleep 2; done
 export VERIF_REPO="$WT" VERIF_LEAN="$WT.verif/lean" VERIF_OUT="$WT.verif"
 cd $V && exec ./check "$PID" "$TIER"
